@@ -98,7 +98,8 @@ def run(ctx):
             ctx.count("features", "link")
         bad = check_against_ref(q, op, o, dflt)
         if bad:
-            ctx.violation("ref:" + H.op_wire(op), bad, dict(kind="ref", op=list(op), defaults=dflt))
+            # known finding (consequence of C02's rtq-capture): a relative link re-parses the CANONICAL text of its parent at top level
+            ctx.violation("rtq-ambiguous-text" if EP.rtq_involved([q]) else "ref:" + H.op_wire(op), bad, dict(kind="ref", op=list(op), defaults=dflt))
         if len(ctx.samples) < 6 and o["kind"] == "state" and q.count("/") >= 2:
             ctx.sample(dict(query=q, value=o.get("value"), vars=o.get("vars"), last=o.get("last"), calls=o["calls"]))
     # a command that returns its own State object (vocab.fresh, as liquer's df_from): the state variables, namespaces and flags set to its
@@ -127,7 +128,7 @@ def search(ctx, broken, disagreements):
     for (op, dflt), res in zip(more, EP.common.pmap(EP.run_session_task, [(None, [op], d) for op, d in more])):
         o = res[0][1]
         bad = check_against_ref(op[1], op, o, dflt)
-        if bad:
+        if bad and not EP.rtq_involved([op[1]]):
             ctx.violation("ref:" + H.op_wire(op), bad, dict(kind="ref", op=list(op), defaults=dflt))
             return
     ctx.notes.append("enlarged search over 6000 further queries found no failing input")
